@@ -467,7 +467,7 @@ func (w *World) writeOp(t *simcore.Task, wt *WTxn) bool {
 	if !w.faultsOn && op == OpUnlocked {
 		op = OpInsert
 	}
-	if len(wt.tables) == 0 {
+	if len(wt.tables) == 0 || wt.finished {
 		return true
 	}
 	ti := wt.tables[c.Choose(len(wt.tables))]
